@@ -43,6 +43,9 @@ var universe = []auth.Permission{"read", "write", "admin"}
 
 func permSet(name string, max int) []auth.Permission {
 	n := verif.Choice(name+"_n", max+1)
+	if n == 0 && verif.Bool(name+"_nil") {
+		return nil // an empty set may also be the nil slice
+	}
 	out := make([]auth.Permission, n)
 	for i := 0; i < n; i++ {
 		out[i] = auth.Permission(verif.String(name+"_"+string(rune('0'+i)), 5))
